@@ -316,6 +316,9 @@ def main(mod, argv):
             driver_ok = False
             broken.append({"what": "model/driver build", "detail": out[-3000:]})
     modules = [mod.MODULE] if isinstance(mod.MODULE, str) else list(mod.MODULE)
+    # every property rests on the constant tables: regenerated from /repo = pinned copy (a changed table breaks a proof)
+    if "TT.Props.ConstsPinned" not in modules:
+        modules.append("TT.Props.ConstsPinned")
     modules = [m for m in modules if os.path.exists(os.path.join(LEAN_DIR, *m.split(".")) + ".lean")]
     checker_cmd = "cd lean && lake build %s" % " ".join(modules)
     names, n_examples, axioms = [], 0, {}
